@@ -7,6 +7,7 @@ import (
 	"go/ast"
 	"go/token"
 	"go/types"
+	"strings"
 
 	"golang.org/x/tools/go/packages"
 )
@@ -95,19 +96,30 @@ func (w *World) runner() *runnerModel {
 			m.queueT, m.fStmts, m.fPtr = n, fs, fp
 		}
 	}
-	if m.queueT == nil {
-		m.problems = append(m.problems, "no statement cursor type (struct with a []*tree.Statement field and an int field)")
-		return m
+	// the continuation (cursor type, stack of cursors) and the pending option group are what the flow properties
+	// (C01, C04, C06, C07, C12) read; the other properties do not: a change of that representation must not take
+	// their anchors away ("soft" problems, see ok)
+	softField := func(typ, fallback string) *types.Var {
+		n := len(m.problems)
+		v := field(typ, fallback)
+		for i := n; i < len(m.problems); i++ {
+			m.problems[i] = "soft:" + m.problems[i]
+		}
+		return v
 	}
-	m.fStack = field("container.Stack[*"+typeStr(m.queueT)+"]", "statementsToRun")
-	for _, g := range w.FuncsIn(m.pkg) {
-		if g.Decl != nil && g.Decl.Recv != nil && g.Body != nil && g.Sig().Results().Len() == 2 {
-			if p, ok := g.Sig().Recv().Type().(*types.Pointer); ok && p.Elem() == types.Type(m.queueT) && typeStr(g.Sig().Results().At(0).Type()) == "*tree.Statement" {
-				m.fetch = g
+	if m.queueT == nil {
+		m.problems = append(m.problems, "soft:no statement cursor type (struct with a []*tree.Statement field and an int field)")
+	} else {
+		m.fStack = softField("container.Stack[*"+typeStr(m.queueT)+"]", "statementsToRun")
+		for _, g := range w.FuncsIn(m.pkg) {
+			if g.Decl != nil && g.Decl.Recv != nil && g.Body != nil && g.Sig().Results().Len() == 2 {
+				if p, ok := g.Sig().Recv().Type().(*types.Pointer); ok && p.Elem() == types.Type(m.queueT) && typeStr(g.Sig().Results().At(0).Type()) == "*tree.Statement" {
+					m.fetch = g
+				}
 			}
 		}
 	}
-	m.fLast = field("*tree.Statement", "lastStatement")
+	m.fLast = softField("*tree.Statement", "lastStatement")
 	m.fChan = field("<-chan error", "commandErrChan")
 	m.fNode = field("string", "currentNode")
 	m.fVis = field("map[string]int", "visitedNodes")
@@ -215,13 +227,16 @@ func (w *World) runner() *runnerModel {
 }
 
 func (m *runnerModel) ok(c *Ctx, rule string) bool {
-	if len(m.problems) > 0 {
-		for _, p := range m.problems {
-			c.undecided(rule, "anchor: "+p)
+	needsFlow := map[string]bool{"C01": true, "C04": true, "C06": true, "C07": true, "C12": true}[c.Prop]
+	bad := false
+	for _, p := range m.problems {
+		if strings.HasPrefix(p, "soft:") && !needsFlow {
+			continue
 		}
-		return false
+		c.undecided(rule, "anchor: "+strings.TrimPrefix(p, "soft:"))
+		bad = true
 	}
-	return true
+	return !bad
 }
 
 // ctorInit describes how the constructor initialises the runner it returns: the literal's elements, overridden or
